@@ -177,6 +177,8 @@ pub fn build(env: &PipeEnv, x: &Sx) -> Observable<'static, V> {
       let vs: Vec<V> = l[1..].iter().map(V::from_sx).collect();
       observables::from_iter(vs.into_iter())
     }
+    // from_iter over an iterator that never ends: it must stop pulling when the subscription ends
+    "from_iter_endless" => observables::from_iter((0i64..).map(V::int as fn(i64) -> V)),
     "range" => {
       need(3);
       observables::range(l[1].int(), l[2].int()).map(|i| V::int(i))
@@ -246,6 +248,10 @@ pub fn build(env: &PipeEnv, x: &Sx) -> Observable<'static, V> {
     "interval_sync" => {
       need(2);
       observables::interval(ms(&l[1]), schedulers::default_scheduler()).map(|n| V::int(n as i64))
+    }
+    "interval_us" => {
+      need(2);
+      observables::interval(Duration::from_micros(l[1].int() as u64), schedulers::new_thread_scheduler()).map(|n| V::int(n as i64))
     }
     "timer" => {
       need(2);
